@@ -71,10 +71,17 @@ def field_type(text, struct, field, where):
     m = re.search(r"struct\s+%s\s*\{(.*?)\n\}" % struct, text, flags=re.S)
     if not m:
         raise F.FactError("struct %s not found in %s" % (struct, where))
-    mm = re.search(r"\b%s\s*:\s*([A-Za-z0-9_<>(), ]+?),?\s*(?:\n|$)" % field, m.group(1))
+    # the type runs to the comma that ends the field (at bracket depth 0), over line breaks
+    fields = re.sub(r"\s+", " ", m.group(1))
+    mm = re.search(r"\b%s\s*:\s*" % field, fields)
     if not mm:
         raise F.FactError("field %s.%s not found in %s" % (struct, field, where))
-    return mm.group(1).strip().rstrip(",")
+    depth, i = 0, mm.end()
+    while i < len(fields) and not (fields[i] == "," and depth == 0):
+        depth += fields[i] in "<(["
+        depth -= fields[i] in ">)]"
+        i += 1
+    return re.sub(r"\s*([<>(),])\s*", r"\1", fields[mm.end():i].strip()).replace(",", ", ").replace(", )", ")")
 
 
 def gen():
@@ -139,7 +146,7 @@ def gen():
     t = F.strip_comments(F.src(rel))
     t = t.split("#[cfg(test)]")[0]
     ty = field_type(t, "PluginSettings", "inhibitPair", rel)
-    m = re.fullmatch(r"Vec<\((\w+),\s*(\w+)\)>", ty)
+    m = re.fullmatch(r"Vec<\((\w+),(\w+)\)>", re.sub(r"\s+", "", ty))
     if not m or m.group(1) not in ITY or m.group(2) not in ITY:
         raise F.FactError("inhibitPair has unsupported type %s" % ty)
     out.append("Definition inhibit_left_ty : ity := %s.\nDefinition inhibit_right_ty : ity := %s.\n" % (ITY[m.group(1)], ITY[m.group(2)]))
